@@ -13,7 +13,8 @@ import vlib
 VERIF = os.path.dirname(os.path.dirname(os.path.abspath(__file__)))
 TRANSLATORS = {"C08": "extract/io_extract.py → Gen/IoDecisions.lean",
                "C09": "extract/sleep_extract.py → Gen/SleepDecisions.lean",
-               "C19": "extract/ctx_extract.py → Gen/CtxAsm.lean"}
+               "C19": "extract/ctx_extract.py → Gen/CtxAsm.lean",
+               "C16": "extract/ring_extract.py → harness argument → init note (selects RingW variant)"}
 
 
 def main():
